@@ -26,7 +26,7 @@ OPTS = ["sgd", "sgd_mom_wd", "adam", "rmsprop", "adadelta"]
 @st.composite
 def lifecycles(draw, tier):
     t = draw(st.sampled_from(gen.TYPES))
-    n = draw(st.integers(1, 4))
+    n = draw(st.integers(1, 4)) if draw(st.integers(0, 9)) else draw(st.integers(5, 9))
     how = draw(st.sampled_from(["sizes", "module"]))
     c = {"type": t, "n": n, "how": how, "seed": draw(st.integers(0, 2 ** 31 - 1))}
     if how == "sizes":
